@@ -25,7 +25,8 @@ Fixpoint a_at (c : achain) (h : Z) : option centry :=
 Notation alocal := (gmap key (option value)).
 Inductive anode :=
 | ARoot (local : alocal) (content : amap)
-| ASnap (local : alocal) (parent : Z).
+| ASnap (local : alocal) (parent : Z)
+| ASub (pre : list Z) (parent : Z).
 Notation avtable := (gmap Z anode).
 Definition overlay (la : alocal) (Sm : amap) : amap :=
   merge (fun ol os => match ol with Some o => o | None => os end) la Sm.
@@ -36,17 +37,32 @@ Fixpoint acontent (fuel : nat) (vs : avtable) (id : Z) : amap :=
            | None => ∅
            | Some (ARoot la Sm) => overlay la Sm
            | Some (ASnap la p) => overlay la (acontent f vs p)
+           | Some (ASub pre p) => sub_map pre (acontent f vs p)
            end
   end.
 Definition afuel (vs : avtable) : nat := S (size vs).
 Definition aget (vs : avtable) (id : Z) : amap := acontent (afuel vs) vs id.
-Definition alocal_of (n : anode) : alocal := match n with ARoot l _ => l | ASnap l _ => l end.
+Definition alocal_of (n : anode) : alocal := match n with ARoot l _ => l | ASnap l _ => l | ASub _ _ => ∅ end.
 Definition aset_local (n : anode) (l : alocal) : anode :=
-  match n with ARoot _ Sm => ARoot l Sm | ASnap _ p => ASnap l p end.
-Definition awrite (vs : avtable) (id : Z) (k : key) (x : option value) : avtable :=
-  match vs !! id with
-  | Some n => <[id := aset_local n (<[k := x]> (alocal_of n))]> vs
-  | None => vs
+  match n with ARoot _ Sm => ARoot l Sm | ASnap _ p => ASnap l p | ASub pre p => ASub pre p end.
+Fixpoint awrite_f (fuel : nat) (vs : avtable) (id : Z) (k : key) (x : option value) : avtable :=
+  match fuel with
+  | O => vs
+  | S f => match vs !! id with
+           | Some (ASub pre p) => awrite_f f vs p (pre ++ k) x
+           | Some n => <[id := aset_local n (<[k := x]> (alocal_of n))]> vs
+           | None => vs
+           end
+  end.
+Definition awrite (vs : avtable) (id : Z) (k : key) (x : option value) : avtable := awrite_f (afuel vs) vs id k x.
+Fixpoint awrites (fuel : nat) (vs : avtable) (id : Z) : alocal :=
+  match fuel with
+  | O => ∅
+  | S f => match vs !! id with
+           | Some (ASub pre p) => sub_map pre (awrites f vs p)
+           | Some n => alocal_of n
+           | None => ∅
+           end
   end.
 
 Record astate := ASt { a_chain : achain; a_views : avtable }.
@@ -75,7 +91,9 @@ Definition astep (a : astate) (o : op) : astate * ans :=
   | OVPut v k x => (ASt c (awrite vs v k (Some x)), AUnit)
   | OVDel v k => (ASt c (awrite vs v k None), AUnit)
   | OVSnap v nv => (ASt c (<[nv := ASnap ∅ v]> vs), AUnit)
-  | OVChanges v => (a, APatch (match vs !! v with Some n => achanges (alocal_of n) | None => [] end))
+  | OVChanges v => (a, APatch (achanges (awrites (afuel vs) vs v)))
+  | OVSub v nv pre => (ASt c (<[nv := ASub pre v]> vs), AUnit)
+  | OVApply v p => (ASt c (foldl (fun vs o => awrite vs v (pkey o) (dec_op o)) vs p), AUnit)
   | OEvict => (a, AUnit)
   | OGetPatch i => (a, AOptPatch (ce_patch <$> a_at c (snd i)))
   end.
